@@ -602,3 +602,72 @@ Definition real_ok (ev : env) (live : list peer) (retryable : bool) (e : err) (n
            | [k] => real_allows ev live nfirst o sig (action_of_kind k)
            | _ => true
            end).
+
+(* ---------------------------------------------------------------------------------------------- *)
+(* Messages of EXCLUDED peers during the replacement attempt.  From the failure on handleError's
+   watcher (told the empty coordinator id) sees every fail message of the session - while the bully
+   election runs, while the relayer collects ready messages or waits for the elected coordinator's
+   start, while the replacement Run is in progress - and the relayer's wait sees every initiate / start
+   message.  "A new attempt in which the culprits are removed": whatever a culprit sends meanwhile, the
+   attempt goes on as if it had sent nothing.  As a judge of ONE observation ([e_msgs2] = everything
+   that was offered after the failure, in arrival order):
+     if nothing but the culprits' messages can have ended or delayed the attempt ([calm]: every other
+     message is an initiate or a well-formed start message, both timeouts lie at least [far] = one minute
+     beyond every arrival - handing the messages over takes the runner far less),
+     then the session has not ended with an error when the runner closes it, and a relayer that does not
+     coordinate the attempt has answered and run exactly what it would have answered and run for SOME
+     election candidate as coordinator had the culprits sent nothing.
+   Nothing is demanded about fail messages of peers that are not culprits (whether the elected
+   coordinator may call the attempt off is not this property's subject). *)
+
+Definition from_excluded (ps : list peer) (x : N * wmsg) : bool := memb (msg_from (snd x)) ps.
+
+Definition drop_excluded (ps : list peer) (msgs : list (N * wmsg)) : list (N * wmsg) :=
+  filter (fun x => negb (from_excluded ps x)) msgs.
+
+Definition harmless (m : wmsg) : bool :=
+  match m with MInitiate _ => true | MStart _ (Some _) => true | _ => false end.
+
+Definition far : N := 60000.
+
+Definition calm (tm : timing) (ps : list peer) (msgs : list (N * wmsg)) : bool :=
+  (far <=? coord_to tm)%N && (far <=? tss_to tm)%N
+  && forallb (fun x : N * wmsg =>
+                (fst x + far <=? coord_to tm)%N && (fst x + far <=? tss_to tm)%N
+                && (from_excluded ps x || harmless (snd x))) msgs.
+
+Fixpoint runs_same (a b : list (bool * list peer)) : bool :=
+  match a, b with
+  | [], [] => true
+  | x :: a', y :: b' => Bool.eqb (fst x) (fst y) && list_peer_eqb (snd x) (snd y) && runs_same a' b'
+  | _, _ => false
+  end.
+
+Definition uninfluenced (ev : env) (ps : list peer) (nfirst : nat) (o : obs) : bool :=
+  if memb (e_self ev) ps then true else
+  if calm (e_tm ev) ps (e_msgs2 ev) then
+    N.eqb (o_final o) FNil
+    && match o_inits2 o with
+       | _ :: _ => true          (* it coordinates the replacement attempt itself *)
+       | [] =>
+           existsb (fun c2 =>
+                      let outs := fst (retry_start_wait (e_tm ev) c2 (drop_excluded ps (e_msgs2 ev))) in
+                      runs_same (skipn nfirst (o_runs o)) (runs_of outs)
+                      && list_peer_eqb (o_ready2 o) (readies_of outs))
+                   (exclude (e_holders ev) ps)
+       end
+  else true.
+
+Definition indep_ok (ev : env) (retryable : bool) (e : err) (nfirst : nat) (o : obs) : bool :=
+  if negb retryable then true else
+  match recognised_kinds e with
+  | [] => true
+  | ks => existsb (fun k => match action_of_kind k with
+                            | RetryExcluding ps => uninfluenced ev ps nfirst o
+                            | _ => true
+                            end) ks
+  end.
+
+(* every arrival is earlier than both bounds of the wait *)
+Definition timely (timeout watch : N) (msgs : list (N * wmsg)) : bool :=
+  forallb (fun x : N * wmsg => (fst x <? timeout)%N && (fst x <? watch)%N) msgs.
